@@ -2,6 +2,7 @@ package main
 
 import (
 	"fmt"
+	"go/constant"
 	"go/token"
 	"go/types"
 	"sort"
@@ -551,23 +552,18 @@ func marshalFreshOK(f *ssa.Function, data *ssa.Parameter, r ssa.Value) (bool, st
 	return false, "a success return does not return the caller's buffer extended by appends: the existing prefix is lost"
 }
 
+// dominatedByNilTest: block b runs only when data is nil - it is unreachable
+// once data is forced to be something other than nil, whichever way the test
+// is written.
 func dominatedByNilTest(b *ssa.BasicBlock, data *ssa.Parameter) bool {
-	for d := b; d != nil; d = d.Idom() {
-		id := d.Idom()
-		if id == nil {
-			break
+	f := b.Parent()
+	fe := feasibleFrom(f, f.Blocks[0], true, func(v ssa.Value) (constant.Value, bool) {
+		if v == ssa.Value(data) {
+			return feasNonNil, true
 		}
-		iff, ok := id.Instrs[len(id.Instrs)-1].(*ssa.If)
-		if !ok || len(d.Preds) != 1 || id.Succs[0] != d {
-			continue
-		}
-		if cmp, ok := iff.Cond.(*ssa.BinOp); ok && cmp.Op == token.EQL {
-			if (cmp.X == ssa.Value(data) && isNilConst(cmp.Y)) || (cmp.Y == ssa.Value(data) && isNilConst(cmp.X)) {
-				return true
-			}
-		}
-	}
-	return false
+		return nil, false
+	})
+	return fe.sawLeaf && !fe.reach[b]
 }
 
 // globalsWrittenOutsideInit: globals of the module with a Store (or address
